@@ -214,6 +214,17 @@ func findFunctionCallViolation(
 
 		// Check if it's a method call (obj.Method)
 		typeInfo := util.ExtractTypeInfo(ctx.pass.TypesInfo.TypeOf(fun.X))
+
+		// A method reached through embedding (promoted) is declared on the embedded type, not on
+		// the type of the expression it is called on: look at the selected method's own receiver
+		if method, ok := ctx.pass.TypesInfo.Uses[fun.Sel].(*types.Func); ok {
+			if sig, ok := method.Type().(*types.Signature); ok && sig.Recv() != nil {
+				if declaredOn := util.ExtractTypeInfo(sig.Recv().Type()); declaredOn != nil {
+					typeInfo = declaredOn
+				}
+			}
+		}
+
 		if typeInfo != nil {
 			methodName := fun.Sel.Name
 			if ctx.testOnlyMethods.Match(typeInfo.PkgPath, methodName, typeInfo.TypeName) {
